@@ -14,7 +14,8 @@ from vf.ref import ldap as R
 def check_one(m: t.Any) -> t.List[t.Tuple[str, str]]:
     out: t.List[t.Tuple[str, str]] = []
     try:
-        b = m.pack(K.OPTS)
+        with K.guard(10):
+            b = m.pack(K.OPTS)
     except BaseException as e:
         return [(f"pack-raises:{K.exc_key(e)}", f"pack raised {type(e).__name__}: {e}")]
     try:
